@@ -239,6 +239,7 @@ _STATE_ASSUMPTIONS = _GEOM_ASSUMPTIONS + [
     "PackedState::check_intersection and both total_shapes are iterator chains: their loop structure (which pairs are visited) is NOT under contract; only the statements deciding how far to look (shell count), what to skip (prefilter) and with which weight a pair enters the sum are proved, as R13 slices",
 ]
 PROPS["C02"]["units"] = ["pairs", "geom", "state"]
+PROPS["C02"]["lemmas"] = ["lattice-area", "trimer-area-pre"]
 PROPS["C02"]["explanation"] = (
     "Verus proves on the real PackedState::score that the reported value is None when the overlap test fires and otherwise exactly shape.area() * copies / cell.area(); "
     "Cell2::area = A x B = a b sin t (z3: non-negative for the angle range); Atom2::area = pi r^2; MolecularShape2::overlap_area = circular-segment formula; circle_overlap = lens of two discs; "
@@ -281,4 +282,36 @@ PROPS["C10"] = dict(
     assumptions=_STATE_ASSUMPTIONS + _OPT_ASSUMPTIONS[:2],
     undecided=["main.rs (rayon `max()`, logging, file writing) is a parallel adapter chain in a binary crate behind #[paw::main]: not under contract — that the CLI really takes the maximum and writes that state is assumed",
                "derive(Clone) of PackedState/PotentialState composes the field clones (derive-generated code not verified)"],
+)
+
+# ---------------------------------------------------------------- C11, C17
+KANI["k_serde_f64"] = dict(props=["C11"], kind="complete", fn="basis.rs impl Serialize/Deserialize for SharedValue, F64Visitor",
+                           what="all bit patterns: serialize makes exactly one serialize_f64 call with the cell's bits; deserialize of a visited f64 yields a cell holding those bits; a visited f32 is widened exactly")
+for _n, _s in [("k_parse_swap", "-y, x"), ("k_parse_parens", "(x, y)"), ("k_parse_const_first", "1/2-x, y+3/4"), ("k_parse_neg_const", "x-1/2, -y"), ("k_parse_mixed", "x-y, x")]:
+    KANI[_n] = dict(props=["C17"], kind="bounded", bound="one concrete grammar string: \"%s\"" % _s, fn="transform.rs Transform2::from_operations (real parser)",
+                    what="the string \"%s\" parses to exactly the affine map it denotes" % _s)
+for _n, _s in [("k_parse_reject_one", "x"), ("k_parse_reject_three", "x,y,z")]:
+    KANI[_n] = dict(props=["C17"], kind="bounded", bound="one concrete non-grammar string: \"%s\"" % _s, fn="transform.rs Transform2::from_operations (real parser)",
+                    what="the string \"%s\" is reported as an error, no panic" % _s)
+
+PROPS["C11"] = dict(
+    level="other", units=["geom"], kani=["k_serde_f64"], lemmas=[],
+    explanation="Scope: hand-written glue only. Kani proves for all bit patterns that SharedValue's custom Serialize emits exactly one f64 with the cell's bits (no narrowing) and that Deserialize rebuilds a cell with exactly the visited value "
+                "(probe Serializer/Deserializer). Verus proves that Transform2::as_svg passes the six matrix entries to the `matrix(a b c d e f)` format string in SVG's column-major order (m00 m10 m01 m11 m02 m12) "
+                "and that Into<Matrix3> returns the transform's own matrix.",
+    assumptions=_GEOM_ASSUMPTIONS[:1] + ["serde derive calls Serialize::serialize of each field once, in order (derive-generated code is not verified)"],
+    undecided=["derive-generated Serialize/Deserialize of states, cells, sites, shapes (e.g. a #[serde(skip)] on a field) — macro-generated code, no contract within reach",
+               "decimal printing/parsing inside serde_json (an independent seeding agent observed 1-ulp differences on the pinned serde_json 1.0.57 without float_roundtrip: 'identical score' holds only to ~1e-16 relative)",
+               "the svg crate and the state-level as_svg loops (which placements and images are drawn)"],
+)
+PROPS["C17"] = dict(
+    level="other", units=["geom"], lemmas=[],
+    kani=["k_tables_%s_%d" % (g, k) for g, n in _GROUPS.items() for k in range(n)] + ["k_parse_swap", "k_parse_parens", "k_parse_const_first", "k_parse_neg_const", "k_parse_mixed", "k_parse_reject_one", "k_parse_reject_three"],
+    explanation="Verus proves, on the real per-character `match` of from_operations taken as a slice, the transition function of the notation (x / y set the coefficient of the current row to the pending sign and reset it; '-' sets the pending sign; "
+                "a digit sets the constant, or divides it after '/', with the pending sign; blanks and '+' change nothing; any other character is an error) and that no index or arithmetic in it can trap for row index < 2. "
+                "Kani runs the whole real parser on every string the crate itself parses (19, complete for that set) and on five further grammar strings and two non-grammar strings (bounded stand-ins, labelled). "
+                "The induction 'folding the transition over any string of the grammar yields the denoted row' is NOT done: undecided, not assumed.",
+    assumptions=_GEOM_ASSUMPTIONS[:1] + ["digit_val shim: `c.to_string().parse::<u64>()? as f64` on a character matched by '0'..='9' returns its decimal value and cannot fail"],
+    undecided=["whole-grammar theorem (induction over strings)", "the split on ',' / trim of parentheses and the dimension check are string-library code, exercised only by the concrete strings",
+               "non-ASCII input: the slice's `other => Err` clause covers every char outside the listed ones, but only for the `match` as written"],
 )
